@@ -247,8 +247,23 @@ def c03_oracle(ops, outs):
     return res
 
 
+def _summary(p, room):
+    """what RoomDefinitionLog::get reads: the log row of the lowest entity on the last day of the room"""
+    rows = [(k, v) for k, v in p.log.items() if k[0] == room]
+    if not rows: return None
+    last = max(k[2] for k, _ in rows)
+    k, v = min(((k, v) for k, v in rows if k[2] == last), key=lambda x: x[0][1])
+    return (last, v["daily"], v["hist"])
+
+
 def _classify_divergence(room, peers, rights):
     contents = [p.content(room) for p in peers]
+    for x in range(len(peers)):
+        for y in range(x + 1, len(peers)):
+            if contents[x] != contents[y]:
+                sx, sy = _summary(peers[x], room), _summary(peers[y], room)
+                if sx is not None and sx == sy and sx[2] != "-":
+                    return "room-summary-compares-first-entity-only"
     tombs = [set(c[1]) for c in contents]
     if any(t != tombs[0] for t in tombs):
         # the same row deleted twice on one day: one answer carries both records, they are keyed by row id
